@@ -38,6 +38,49 @@ type half struct {
 	atClose func() []byte // bytes flushed when the writer closes (held frames)
 	split   bool          // deliver a write in several appends with yields in between
 	srng    *rand.Rand
+	// stream recording (tamper sessions): the oracle attributes a modification to the first
+	// byte position at which the stream offered to the reader differs from the stream the
+	// writer wrote, never to the position the mutation was aimed at.
+	rec    bool
+	orig   []byte // every byte accepted from the writer, untampered
+	bounds []int  // end offset in orig of every Write (unit u = orig[bounds[u-1]:bounds[u]])
+	mut    []byte // every byte made available to the reader
+}
+
+// deliver appends bytes to the reader's buffer (caller holds the link mutex).
+func (h *half) deliver(b []byte) {
+	h.buf = append(h.buf, b...)
+	if h.rec {
+		h.mut = append(h.mut, b...)
+	}
+}
+
+// firstDiff compares the written stream with the stream offered to the reader. off is the first
+// byte offset at which they differ (the shorter length if one is a prefix of the other), -1 if
+// they are identical. unit is the index of the write (0 = handshake packet, k+1 = frame k)
+// whose bytes contain off; len(bounds) if off lies behind everything that was written (bytes
+// were appended to an otherwise intact stream). Call after all users of the link are done.
+func (h *half) firstDiff() (off, unit int) {
+	n := min(len(h.orig), len(h.mut))
+	off = -1
+	for i := 0; i < n; i++ {
+		if h.orig[i] != h.mut[i] {
+			off = i
+			break
+		}
+	}
+	if off < 0 {
+		if len(h.orig) == len(h.mut) {
+			return -1, -1
+		}
+		off = n
+	}
+	for u, e := range h.bounds {
+		if off < e {
+			return off, u
+		}
+	}
+	return off, len(h.bounds)
 }
 
 // chunker decides how many bytes a Read may return at most.
@@ -159,6 +202,10 @@ func (e *endpoint) Write(p []byte) (int, error) {
 	widx := h.writes
 	h.writes++
 	h.total += len(p)
+	if h.rec {
+		h.orig = append(h.orig, p...)
+		h.bounds = append(h.bounds, len(h.orig))
+	}
 	if h.cut {
 		l.mu.Unlock()
 		return len(p), nil
@@ -174,16 +221,16 @@ func (e *endpoint) Write(p []byte) (int, error) {
 		rest := out
 		for i := 0; i < pieces && len(rest) > 1; i++ {
 			n := 1 + h.srng.Intn(len(rest)-1)
-			h.buf = append(h.buf, rest[:n]...)
+			h.deliver(rest[:n])
 			rest = rest[n:]
 			l.cond.Broadcast()
 			l.mu.Unlock()
 			runtime.Gosched()
 			l.mu.Lock()
 		}
-		h.buf = append(h.buf, rest...)
+		h.deliver(rest)
 	} else {
-		h.buf = append(h.buf, out...)
+		h.deliver(out)
 	}
 	if cut {
 		h.cut, h.closed = true, true
@@ -200,7 +247,7 @@ func (e *endpoint) CloseWrite() {
 	l.mu.Lock()
 	if !h.closed {
 		if h.atClose != nil {
-			h.buf = append(h.buf, h.atClose()...)
+			h.deliver(h.atClose())
 		}
 		h.closed = true
 	}
